@@ -51,6 +51,8 @@ pub struct UnixTerminal {
     // if it is not None we are going to use escape sequence to detect
     // terminal size, otherwise ioctl is used.
     size: Option<TerminalSize>,
+    // a size query was queued on SIGWINCH and the answer has not arrived yet
+    size_query: bool,
     poll: Poll,
 }
 
@@ -146,6 +148,7 @@ impl UnixTerminal {
             image_handler: Box::new(DummyImageHandler),
             capabilities,
             size: None,
+            size_query: false,
             poll,
         };
 
@@ -485,6 +488,7 @@ impl Terminal for UnixTerminal {
                                     .push_back(TerminalEvent::Resize(self.size()?));
                             } else {
                                 self.write_all(GET_TERM_SIZE)?;
+                                self.size_query = true;
                             }
                         }
                         SIGTERM | SIGINT | SIGQUIT => quit = true,
@@ -524,6 +528,7 @@ impl Terminal for UnixTerminal {
                         // we are using escape sequence to determine terminal resize
                         if let Some(term_size) = self.size.as_mut() {
                             *term_size = size;
+                            self.size_query = false;
                             self.events_queue.push_back(TerminalEvent::Resize(size));
                         }
                     }
@@ -597,7 +602,13 @@ impl Terminal for UnixTerminal {
     }
 
     fn frames_drop(&mut self) {
-        self.write_queue.clear_but_last()
+        let chunks = self.write_queue.chunks_count();
+        self.write_queue.clear_but_last();
+        // the size query of a SIGWINCH may have been among the dropped chunks, without
+        // it the resize would never be reported
+        if self.size_query && self.write_queue.chunks_count() < chunks {
+            let _ = self.write_queue.write_all(GET_TERM_SIZE);
+        }
     }
 
     fn dyn_ref(&mut self) -> &mut dyn Terminal {
